@@ -30,6 +30,18 @@
 //	                                         sends nmsg server→client messages of every type with
 //	                                         extreme fields, answers work connections with garbage,
 //	                                         then drops; the frpc must log in again                => done | nologin
+//	wconn <cid> <ptype> <variant>            on session <cid>: register a proxy of type tcp|udp|stcp|sudp|xtcp (or use the real
+//	                                         frpc's rstcp|rsudp proxy), offer work connections (NewWorkConn), make frps take one
+//	                                         (user connection / datagram / visitor connection / nat-hole request), then SPEAK on
+//	                                         the work connection and on the visitor connection: UDPPacket with absent / null /
+//	                                         zero / garbage addresses and contents, Ping, every other type, unregistered type
+//	                                         bytes, wrong-typed JSON, raw bytes (eng_crash_work.go)                       => sent
+//	wstorm <seed> <nconn> <nmsg>             the same concurrently from nconn peers, answering every ReqWorkConn, with
+//	                                         control connections dropped mid-way                                      => done
+//	tear <cid> <gate> <nwork> <nproxy>       session teardown against work connections: login, nproxy proxies, park the
+//	                                         worker at gate dispDone|drained|beforeDone|beforeDel (verifhook) after dropping the
+//	                                         control connection, offer nwork NewWorkConn for the run id, release, one late offer;
+//	                                         gate `none` = a free race (offers hammering while the control connection drops)  => done
 //	stat                                     what the server answered so far (coverage evidence only;
 //	                                         accepted as is by the model)                          => stat:…
 //	watch                                    watchdog: echo through the real frpc's tcp tunnel and a
@@ -64,6 +76,7 @@ import (
 	"github.com/fatedier/frp/pkg/nathole"
 	"github.com/fatedier/frp/pkg/transport"
 	"github.com/fatedier/frp/pkg/util/log"
+	"github.com/fatedier/frp/pkg/util/verifhook"
 	netpkg "github.com/fatedier/frp/pkg/util/net"
 	"github.com/fatedier/frp/pkg/util/version"
 	"github.com/fatedier/frp/server"
@@ -220,6 +233,14 @@ func crashClassify(stderr string) string {
 }
 
 func crashExec(tok []string) string {
+	if os.Getenv("VERIF_CRASH_TIMING") != "" {
+		t0 := time.Now()
+		defer func() { fmt.Fprintf(os.Stderr, "TIMING %.3f %s\n", time.Since(t0).Seconds(), strings.Join(tok[:min(len(tok), 3)], " ")) }()
+	}
+	return crashExec1(tok)
+}
+
+func crashExec1(tok []string) string {
 	if tok[0] == "reset" {
 		crashKill()
 		if err := crashSpawn(); err != nil {
@@ -263,6 +284,8 @@ func crashSettle(tok []string) time.Duration {
 		}
 	case "storm", "cstorm", "race6", "stun", "negpool":
 		return 50 * time.Millisecond
+	case "wconn", "wstorm", "tear":
+		return 80 * time.Millisecond
 	}
 	return 0
 }
@@ -291,6 +314,9 @@ type crashConn struct {
 	rw          io.ReadWriter
 	established bool
 	runID       string
+	wmu         sync.Mutex              // writers of the control connection (ops and the ReqWorkConn responder)
+	reqWork     chan struct{}           // one token per ReqWorkConn read from the server
+	proxyResp   chan *msg.NewProxyResp  // registration answers
 }
 
 type crashWorld struct {
@@ -306,6 +332,10 @@ type crashWorld struct {
 	runIDs    []string
 	echoPort  int
 	cli       *client.Service
+	udpEcho   int
+	gmu       sync.Mutex
+	gates     map[string]*crashGate // Login.Hostname -> gate the session's teardown parks at
+	tearSeq   int
 }
 
 var crashW *crashWorld
@@ -354,7 +384,8 @@ func crashPortWindow() int {
 }
 
 func crashStart() *crashWorld {
-	w := &crashWorld{conns: map[string]*crashConn{}}
+	w := &crashWorld{conns: map[string]*crashConn{}, gates: map[string]*crashGate{}}
+	verifhook.Set(w.gateHook)
 	var svr *server.Service
 	var err error
 	for attempt := 0; attempt < 5; attempt++ {
@@ -412,7 +443,20 @@ func crashStart() *crashWorld {
 	tcp.LocalIP, tcp.LocalPort = "127.0.0.1", w.echoPort
 	tcp.RemotePort = w.watchPort
 	tcp.Complete("")
-	cli, err := client.NewService(client.ServiceOptions{Common: ccfg, ProxyCfgs: []v1.ProxyConfigurer{tcp}})
+	// two more proxies of the real frpc that VISITORS (another party) can reach: what a visitor sends is relayed by
+	// frps to the real frpc's work connection (stcp: raw bytes to the echo service; sudp: parsed as UDPPacket frames)
+	w.udpEcho = crashUDPEcho()
+	stcp := &v1.STCPProxyConfig{}
+	stcp.Name, stcp.Type = crashRealSTCP, "stcp"
+	stcp.Secretkey, stcp.AllowUsers = crashSk, []string{"*"}
+	stcp.LocalIP, stcp.LocalPort = "127.0.0.1", w.echoPort
+	stcp.Complete("")
+	sudp := &v1.SUDPProxyConfig{}
+	sudp.Name, sudp.Type = crashRealSUDP, "sudp"
+	sudp.Secretkey, sudp.AllowUsers = crashSk, []string{"*"}
+	sudp.LocalIP, sudp.LocalPort = "127.0.0.1", w.udpEcho
+	sudp.Complete("")
+	cli, err := client.NewService(client.ServiceOptions{Common: ccfg, ProxyCfgs: []v1.ProxyConfigurer{tcp, stcp, sudp}})
 	if err != nil {
 		panic(err)
 	}
@@ -736,7 +780,7 @@ func crashCount(k string) {
 	crashCntMu.Unlock()
 }
 
-func crashDrainMsgs(rw io.Reader) {
+func crashDrainMsgs(rw io.Reader, pc *crashConn) {
 	go func() {
 		for {
 			m, err := msg.ReadMsg(rw)
@@ -750,6 +794,12 @@ func crashDrainMsgs(rw io.Reader) {
 				} else {
 					crashCount("proxyRefused")
 				}
+				if pc != nil {
+					select {
+					case pc.proxyResp <- x:
+					default:
+					}
+				}
 			case *msg.Pong:
 				if x.Error == "" {
 					crashCount("pong")
@@ -760,6 +810,12 @@ func crashDrainMsgs(rw io.Reader) {
 				crashCount("natResp")
 			case *msg.ReqWorkConn:
 				crashCount("reqWork")
+				if pc != nil {
+					select {
+					case pc.reqWork <- struct{}{}:
+					default:
+					}
+				}
 			default:
 				crashCount("other")
 			}
@@ -768,6 +824,10 @@ func crashDrainMsgs(rw io.Reader) {
 }
 
 func (w *crashWorld) login(cid string, pool int, good bool, variant int64) string {
+	return w.loginHost(cid, pool, good, variant, "c16")
+}
+
+func (w *crashWorld) loginHost(cid string, pool int, good bool, variant int64, host string) string {
 	r := rand.New(rand.NewSource(variant))
 	c, err := w.open()
 	if err != nil {
@@ -778,7 +838,7 @@ func (w *crashWorld) login(cid string, pool int, good bool, variant int64) strin
 	if !good {
 		key = crashStr(r)
 	}
-	lm := &msg.Login{Version: version.Full(), Hostname: "c16", Os: "linux", Arch: "amd64", RunID: "", Timestamp: ts,
+	lm := &msg.Login{Version: version.Full(), Hostname: host, Os: "linux", Arch: "amd64", RunID: "", Timestamp: ts,
 		PrivilegeKey: key, PoolCount: pool}
 	if variant != 0 {
 		lm.Version, lm.Hostname, lm.Os, lm.Arch, lm.User = crashStr(r), crashStr(r), crashStr(r), crashStr(r), crashStr(r)
@@ -811,17 +871,22 @@ func (w *crashWorld) login(cid string, pool int, good bool, variant int64) strin
 		c.Close()
 		return "cryptoerr"
 	}
-	crashDrainMsgs(rw)
+	pc := &crashConn{c: c, rw: rw, established: true, runID: resp.RunID, reqWork: make(chan struct{}, 64),
+		proxyResp: make(chan *msg.NewProxyResp, 64)}
+	crashDrainMsgs(rw, pc)
 	crashCount("loginOK")
-	w.put(cid, &crashConn{c: c, rw: rw, established: true, runID: resp.RunID})
+	w.put(cid, pc)
 	return "ok"
 }
 
 // send on the established connection, or as first message of a new stream
 func (w *crashWorld) send(cid string, write func(io.Writer) error) {
 	if pc := w.get(cid); pc != nil && pc.established {
+		pc.wmu.Lock()
 		_ = pc.c.SetWriteDeadline(time.Now().Add(3 * time.Second))
-		if err := write(pc.rw); err != nil {
+		err := write(pc.rw)
+		pc.wmu.Unlock()
+		if err != nil {
 			w.drop(cid) // the server closed this session (a malformed / oversized frame before): next time a fresh stream
 		}
 		return
@@ -1066,11 +1131,21 @@ func crashChildExec(w *crashWorld, tok []string) string {
 	case "cstorm":
 		seed, _ := strconv.ParseInt(tok[1], 10, 64)
 		return crashCStorm(w, seed, atoi(tok[2]))
+	case "wconn":
+		v, _ := strconv.ParseInt(tok[3], 10, 64)
+		return w.wconn(tok[1], tok[2], v)
+	case "wstorm":
+		seed, _ := strconv.ParseInt(tok[1], 10, 64)
+		w.wstorm(seed, atoi(tok[2]), atoi(tok[3]))
+		return "done"
+	case "tear":
+		return w.tear(tok[1], tok[2], atoi(tok[3]), atoi(tok[4]))
 	case "stat":
 		byRun, names := w.svr.VerifSessDump()
 		crashCntMu.Lock()
 		defer crashCntMu.Unlock()
-		ks := []string{"loginOK", "proxyOK", "proxyRefused", "pong", "pongErr", "natResp", "reqWork"}
+		ks := []string{"loginOK", "proxyOK", "proxyRefused", "pong", "pongErr", "natResp", "reqWork", "workOffered", "workStarted",
+			"workFrames", "udpMarker", "visitorOK", "visitorRefused", "tearParked", "tearOfferClosed", "tearOfferPooled"}
 		out := []string{fmt.Sprintf("sessions=%d", len(byRun)), fmt.Sprintf("proxies=%d", len(names))}
 		for _, k := range ks {
 			out = append(out, fmt.Sprintf("%s=%d", k, crashCnt[k]))
@@ -1188,7 +1263,7 @@ func crashCStorm(w *crashWorld, seed int64, nmsg int) string {
 					}
 					time.Sleep(time.Duration(50+r.Intn(100)) * time.Millisecond)
 				case *msg.NewWorkConn:
-					switch r.Intn(4) {
+					switch r.Intn(6) {
 					case 0:
 						_ = msg.WriteMsg(c, w.makeMsg("StartWorkConn", r))
 					case 1:
@@ -1200,6 +1275,15 @@ func crashCStorm(w *crashWorld, seed int64, nmsg int) string {
 						_, _ = c.Write(b)
 					case 2:
 						_, _ = c.Write(crashFrame(byte(r.Intn(256)), []byte(crashJSON(r)), math.MinInt64))
+					case 4, 5:
+						// the client's udp proxy: StartWorkConn, then the frame classes of a work connection
+						// (UDPPacket with absent / null / zero / garbage addresses, Ping, other types, malformed)
+						_ = msg.WriteMsg(c, &msg.StartWorkConn{ProxyName: "c16cliudp"})
+						for _, fr := range crashWorkFrames(w, r, 6+r.Intn(10), nil) {
+							if _, err := c.Write(fr); err != nil {
+								break
+							}
+						}
 					default:
 						_ = msg.WriteMsg(c, w.makeMsg(crashTypes[r.Intn(len(crashTypes))], r))
 					}
@@ -1317,6 +1401,20 @@ func crashGen(rng *rand.Rand, n int, emit func(string)) {
 	emit("stun 1 3")                             // a well-behaved STUN peer
 	emit("stun 64 150")                          // the flood
 	emit("watch")
+	// 1b. every class of work / visitor connection and every teardown gate once, early (short replays)
+	for _, pt := range crashWorkTypes {
+		v := rng.Intn(1 << 30)
+		emit(fmt.Sprintf("wconn wa %s %d", pt, v&^3)) // plain work connection (variant%4 == 3: encrypted / compressed)
+		if pt == "udp" || pt == "rsudp" {
+			emit(fmt.Sprintf("wconn wa %s %d", pt, v|3))
+		}
+	}
+	for _, g := range crashTearGates {
+		emit(fmt.Sprintf("tear tg %s %d %d", g, 1+rng.Intn(4), rng.Intn(5)))
+	}
+	emit(fmt.Sprintf("wstorm %d 6 8", rng.Intn(1<<20)))
+	emit("stat")
+	emit("watch")
 	// 2. sequential exploration: every message type, established and first-message, JSON frames, raw bytes
 	cids := []string{"a", "b", "c", "d", "e", "f"}
 	budget := n
@@ -1334,9 +1432,17 @@ func crashGen(rng *rand.Rand, n int, emit func(string)) {
 	stormEvery := 60
 	for emitted < budget {
 		switch x := rng.Intn(100); {
-		case x < 14:
+		case x < 12:
 			pool := pick(rng, crashPools([]int{0, 1, 5, 7, -1, -9, -10, 1 << 31, math.MaxInt64}))
 			emit(fmt.Sprintf("login %s %d %d %d", pick(rng, cids), pool, lo.Ternary(rng.Intn(5) == 0, 0, 1), rng.Intn(1<<20)))
+		case x < 18:
+			pt := pick(rng, crashWorkTypes)
+			if rng.Intn(4) == 0 {
+				pt = "udp" // the only class frps parses frame by frame
+			}
+			emit(fmt.Sprintf("wconn %s %s %d", pick(rng, cids), pt, rng.Intn(1<<30)))
+		case x < 21:
+			emit(fmt.Sprintf("tear %s %s %d %d", pick(rng, []string{"t1", "t2"}), pick(rng, crashTearGates), 1+rng.Intn(6), rng.Intn(12)))
 		case x < 70:
 			t := crashTypes[rng.Intn(len(crashTypes))]
 			if rng.Intn(2) == 0 {
@@ -1359,6 +1465,9 @@ func crashGen(rng *rand.Rand, n int, emit func(string)) {
 		emitted++
 		if emitted%stormEvery == 0 {
 			emit(fmt.Sprintf("storm %d %d %d", rng.Intn(1<<20), 6+rng.Intn(10), 15+rng.Intn(25)))
+			if emitted%(3*stormEvery) == 0 {
+				emit(fmt.Sprintf("wstorm %d %d %d", rng.Intn(1<<20), 4+rng.Intn(8), 4+rng.Intn(12)))
+			}
 			emit("stat")
 			emit("watch")
 			emitted += 20
@@ -1370,9 +1479,12 @@ func crashGen(rng *rand.Rand, n int, emit func(string)) {
 	}
 	emit(fmt.Sprintf("cstorm %d 80", rng.Intn(1<<20)))
 	emit(fmt.Sprintf("storm %d 16 40", rng.Intn(1<<20)))
+	emit(fmt.Sprintf("wstorm %d 12 12", rng.Intn(1<<20)))
 	emit("stat")
 	emit("watch")
 }
+
+var crashTearGates = []string{"dispDone", "drained", "beforeDone", "beforeDel", "none"}
 
 func init() {
 	if os.Getenv("VERIF_CRASH_CHILD") != "" && len(os.Args) >= 3 && os.Args[1] == "crash" && os.Args[2] == "child" {
